@@ -67,9 +67,50 @@ CHECKS = {
   text="Solver verdict, for every sequence of up to 4 (quick) / 6 (thorough) integers of any u128 value and 1-3 outputs, that message parsing and field decoding yield exactly the runestone or the cenotaph (flaw order, kept etched name and mint, edict delta decoding and output bounds, flag/tag handling, pointer and supply rules) that a reference written from the specification yields, and never panic. Payload bytes -> integers is decided by Kani for payloads <= 6 bytes.",
   design_ref="DESIGN.md §3 C25",
   note="Script -> payload assembly relies on bitcoin's Instructions iterator (decided only for 3-byte scripts, thorough tier); encipher and the encipher->decipher round trip are not covered; std containers are modelled."),
+ "C01": dict(
+  engine="E2-mir2smt",
+  technique="path-wise symbolic execution of the MIR of Updater::index_transaction_sats (function text extracted from src/index/updater.rs at run time into the lift crate) with std iterators/Vec modelled; FIFO refinement property posed to z3 per path",
+  category="model_checking",
+  text="Solver verdict for the per-transaction step: for every choice of input sat ranges and output values in the listed shapes, each output receives exactly its value, the assigned ranges followed by the leftovers are the input ranges split first-in-first-out, nothing empty is stored and nothing panics. This is the kernel of C01; the block-level choreography around it is redb code and is stated as uncovered.",
+  design_ref="DESIGN.md §3 C01",
+  note="Fragment of C01 (one transaction, sat index only). Updater/Table are shims; SatRange codec enters as the C35 lemma; Sat::common is a nondeterministic stub."),
+ "C27": dict(
+  engine="E1b-kani-lift",
+  technique="bounded model checking (Kani/CBMC) of the real InscriptionId::value/from_value lifted from src/inscriptions/inscription_id.rs; symbolic index / symbolic byte strings up to 37 bytes; concrete playback",
+  category="model_checking",
+  text="Fragment of C27: solver verdict that parent/delegate ids survive their compact byte encoding for every index (quick: fixed txid; thorough: every txid) and that from_value is total and exact on every byte string up to 37 bytes. Envelope building/parsing is not covered (stated).",
+  design_ref="DESIGN.md §3 C27",
+  note="Envelope/script code (inscription.rs, envelope.rs, tag.rs) is outside the decided fragment."),
 }
 
+_IDX = "global invariant over redb tables after arbitrary histories; the audits and the maintenance code run inside redb transactions that cannot be symbolically executed with Kani/CBMC or the MIR engine (only the per-transaction / per-value kernels are decided, under C01, C35)"
 NOT_APPLICABLE = {
+ "C02": _IDX,
+ "C04": _IDX,
+ "C05": _IDX,
+ "C07": _IDX,
+ "C17": _IDX,
+ "C03": "inscription_updater.rs needs eight redb table handles, BTreeMap/HashSet, sorting and a regex (Inscription::hidden); not encodable within reach of the engines on this image",
+ "C06": "curse/reinscription selection lives in inscription_updater.rs (redb tables, BTreeMap) and envelope.rs (bitcoin script iterator: CBMC needs 220-590 s per 3-byte script); not encodable within reach",
+ "C08": "rune_updater.rs is HashMap/closure/redb-table code; the supply invariant is a property of whole histories. Only RuneEntry::mintable (C10) and Runestone::decipher (C25) are decided",
+ "C09": "the allocation loop in RuneUpdater::index_runes iterates HashMap<RuneId, Lot> and Vec<HashMap<..>> with closures over them; neither Kani (HashMap does not finish) nor the MIR engine (no models for these container shapes, path explosion over balances) reaches it",
+ "C11": "RuneUpdater::etched/tx_commits_to_rune/create_rune_entry read redb tables and call the node RPC for commit transactions; not encodable. Rune::reserved / minimum_at_height are decided under C32/C33",
+ "C12": "depends on commit batching, cache flushing and reopen behaviour of redb write transactions; no solver-reachable encoding",
+ "C13": "crash points of redb commits and savepoints; durable-storage behaviour cannot be symbolically executed here",
+ "C14": "reorg detection talks to the node RPC and restores redb savepoints; not encodable",
+ "C15": "compares whole indexing runs, one of which uses the threaded/async fetcher; Kani does not handle concurrency and the runs are whole-program",
+ "C16": "only fragments of the indexing path are solver-reachable and they are decided where they belong (varint C26, decipher C25, utxo/entry codecs C35, per-transaction sat split C01, inscription-id decoding C27); envelope parsing, the updaters and redb are not, so no honest whole-property check exists",
+ "C18": "axum HTTP handlers over a live redb index",
+ "C19": "axum handlers, header layers, brotli decompression and media sniffing over a live index",
+ "C20": "TransactionBuilder uses f64 fee rates, BTreeMap<OutPoint,..>, Address/ScriptBuf and Vec<TxOut> rebuilding loops; not attempted - the MIR engine lacks models for BTreeMap/Address and CBMC does not finish comparable container code here",
+ "C21": "batch planning runs against the wallet, the node RPC (mock node in tests) and then the indexer; whole-program",
+ "C22": "wallet rune send/burn/split build transactions from wallet state obtained over RPC; whole-program",
+ "C23": "locking and fundrawtransaction are node RPC calls",
+ "C24": "PSBT acceptance signs through the node RPC",
+ "C28": "brotli and minicbor decoders are input-length loops over untrusted bytes (weak target for bounded symbolic execution); the properties codec was not attempted",
+ "C30": "the numeric halves are decided elsewhere (C29: sat <-> height/offset/degree; C31: degree/decimal/percentile parsers accept only what they denote) but printing is core::fmt digit rendering and f64 formatting (percentile), and names are 11-letter base-26 strings on which z3/cvc5 do not finish (see C32 bounds); no honest print-then-parse verdict over all sats",
+ "C36": "Settings::merge needs clap/serde_yaml/env machinery inside the shim; not attempted",
+ "C37": "event streams of whole indexing histories through tokio channels",
 }
 
 PENDING_REASON = "no solver-based check built yet in this tree; see DESIGN.md §5 for whether one is planned or the property is out of reach for the technique"
